@@ -14,7 +14,8 @@ EXPLANATION = (
     "enters deactivated[lv] and its children enter active[lv+1] unconditionally in one block; deactivated functions move from "
     "actfun to deactfun; activation is filtered by support containment; (R04.4) every HSpace method that writes state reaches "
     "_clear_cache() after its last write; (R04.5) set-typed state reaches numbering only through sorted(); (R04.6) disparity-"
-    "preserving marking only runs for finite disparity and stops below level 0.")
+    "preserving marking only runs for finite disparity, stops below level 0, and recurses on exactly the level whose marks it "
+    "has just extended (level expressions compared as affine forms).")
 DOES_NOT_DECIDE = "tiling, linear independence, partition of unity, mutual inverse of HB<->THB (facts about runtime sets)"
 TECHNIQUE = "custom AST rules: container-kind taint, alias/effect analysis for state ownership, statement pairing, must-reach (cache invalidation), order provenance"
 
